@@ -9,7 +9,7 @@ pub mod c11 {
     use super::spec::*;
     use super::bumping::*;
 
-    broadcast use super::lem::kernel_arith;
+    broadcast use {super::lem::kernel_arith, super::lem::lemma_arith};
 
     /// C11 upward, success: aligned, nearest to the position, inside the range, new position
     /// inside the range, not before the end of the block, multiple of the minimum alignment.
